@@ -22,11 +22,18 @@ INF = float('inf')
 DUR = {'n': [], 'i': [['INSTANT']], 1: [['D', 1]], 2: [['D', 2]], 3: [['D', 3]], 0.5: [['D', 0.5]],
        0.1: [['D', 0.1]], 0.7: [['D', 0.7]], 1.1: [['D', 1.1]], 0.2: [['D', 0.2]],
        # bodies that run a complete nested simulation
-       's0': [['SUBRUN', 2]], 's1': [['D', 1], ['SUBRUN', 0]]}
+       's0': [['SUBRUN', 2]], 's1': [['D', 1], ['SUBRUN', 0]],
+       # a body (first tick of a ticker with period 5 that starts at 0) with an until block whose notification fires at 8 - in
+       # the very time step in which a child ticker of that block raises IntervalExceeded; the body handles what comes out
+       'u3': [['TRY', [['UNTIL', 'bu', ['EQ', 8], [['DO', 'ct', [['INTERVAL', 1, 2, [[['D', 2]], []]]]], ['ETERNITY']]]]]],
+       'u3g': [['TRY', [['UNTIL', 'bu', ['GE', 8], [['DO', 'ct', [['DELAYLOOP', 1, 3, [[['D', 1]], [['RAISE', 'KeyError', 'ct']], []]]]],
+                                                     ['ETERNITY']]]]]],
+       # bodies of exactly one period 2**-32, and of one and a half such periods
+       'p32': [['D', 2.0 ** -32]], 'p32l': [['D', 1.5 * 2.0 ** -32]]}
 
 
 def dur(d):
-    return {'n': 0, 'i': 0, 's0': 0, 's1': 1}.get(d, d)
+    return {'n': 0, 'i': 0, 's0': 0, 's1': 1, 'u3': 3, 'u3g': 3, 'p32': 2.0 ** -32, 'p32l': 1.5 * 2.0 ** -32}.get(d, d)
 
 
 def spinner(times):
@@ -116,6 +123,16 @@ def cases(tier):
             for seq in (('n',), ('n', 'n', 'n'), ('i', 'n', 'i'), ('n', 'i')):
                 for start in (0, 3):
                     out.append(program(kind, period, seq, start, None))
+    # bodies that last exactly one very short period / slightly longer than it (IntervalExceeded is exact, not "about")
+    for kind in ('INTERVAL', 'DELAYLOOP'):
+        for seq in (('p32',), ('p32', 'n'), ('p32l',), ('n', 'p32l', 'n'), ('p32', 'p32', 'n'), ('p32l', 'p32l')):
+            for start in (0, 3):
+                out.append(program(kind, 2.0 ** -32, seq, start, None))
+    # a body with an until block that ends in the time step in which its child ticker fails
+    for kind in ('INTERVAL', 'DELAYLOOP'):
+        for seq in (('u3', 'n'), ('u3', 'n', 'n'), ('u3g', 'n'), ('u3g', 1, 'n')):
+            out.append(program(kind, 5, seq, 0, None))
+            out.append(program(kind, 5, seq, 0, None, second=('INTERVAL', 2, ('n', 'n', 'n', 'n', 'n', 'n'))))
     # bodies that run a nested simulation (the ticker's own simulation must be undisturbed afterwards)
     for kind in ('INTERVAL', 'DELAYLOOP'):
         for period in (0, 1, 2):
